@@ -18,7 +18,7 @@ PROD_S = 0x1000000
 T = 4
 
 MODES = ["none", "e", "d", "v", "V", "h", "e+d", "v+h", "cluster-en", "cluster-edv", "long-encode", "long-decode"]
-INS = ["absent", "file", "missing", "path123", "path300", "valid", "tampered", "empty", "directory", "devnull", "fifo"]
+INS = ["absent", "file", "missing", "path123", "path300", "valid", "tampered", "empty", "directory", "devnull", "fifo", "name251", "wencdir"]
 OUTS = ["absent", "writable", "unwritable"]
 KEYS = ["absent", "right", "wrong", "len23", "nopad", "badsym", "len25", "onepad"]
 CMODES = ["absent", "0", "1", "2", "3", "4", "5", "-1", "256", "abc", "127"]
@@ -79,6 +79,13 @@ def make_argv(vec, fx, rundir):
             os.makedirs(deep, exist_ok=True)
             src = os.path.join(deep, "z" * (300 - len(deep) - 1))
             open(src, "wb").write(fx.plain)
+        elif inn == "name251":  # the input opens, but "<input>.wenc" is longer than NAME_MAX: the default output cannot be created
+            src = os.path.join(rundir, "n" * 251)
+            open(src, "wb").write(fx.plain)
+        elif inn == "wencdir":  # the input opens, but "<input>.wenc" already exists as a directory
+            src = os.path.join(rundir, "plainw.bin")
+            open(src, "wb").write(fx.plain)
+            os.makedirs(src + ".wenc", exist_ok=True)
         elif inn == "directory":
             src = os.path.join(rundir, "a-directory")
             os.makedirs(src, exist_ok=True)
@@ -190,7 +197,7 @@ def must_succeed(vec):
     if cm in ("-1", "256", "abc", "127", "5") or hm in ("3", "abc"):
         return False
     if m == "e":
-        return inn in ("file", "empty", "valid", "tampered")
+        return inn in ("file", "empty", "valid", "tampered") or (inn in ("name251", "wencdir") and out == "writable")
     if m in ("d", "v"):
         return inn == "valid" and key == "right"
     return False
